@@ -44,14 +44,17 @@ TEXTS["C03"] = dict(
                "on stdout, reopens the directory and requires coverage and refusal of every conflicting duty; up to two further incarnations on the same directory are killed in turn "
                "(drawn storage point 1..8, periodic pruning drawn per incarnation). (3) A child is traced with strace; from openat flags, writes and fsyncs a per-file "
                "durability model is built and, for every system-call boundary after the first released signature, images = durable prefix + {nothing, a write-back prefix, a torn prefix} of "
-               "the volatile suffix (and torn synchronous writes) are opened by a fresh rules service, which must cover everything released before the cut.",
+               "the volatile suffix (and torn synchronous writes) are opened by a fresh rules service, which must cover everything released before the cut. (4) The child's store "
+               "sits on a tmpfs with 0-28 KB left: the workload runs into ENOSPC (short writes, torn value-log tail) inside badger; what the incarnations announced must be "
+               "free of conflicts and covered by what a fresh stack finds on the directory, with and without space made.",
     level_note=TRUST + " Layer 1 is process-kill semantics on a quiescent directory image; layer 3 assumes append-only files and ordered directory operations (true for badger's value log and MANIFEST) "
                "and does not model reordering inside a synced range. An image that badger refuses to open (torn tail, truncation is off) counts as safe: the instance signs nothing.")
 TEXTS["C08"] = dict(
     technique="deterministic simulation: seeded batch shapes x GOMAXPROCS with scheduled scatter workers; independent SSZ signing root + BLS verification per position",
     level_text="Seeded search over request kind, batch size (1..512) and GOMAXPROCS (1..128), with scatter workers of small batches released in drawn order by the "
                "scheduler: every signature returned by the real gRPC signer handlers is BLS-verified under the public key of the account addressed at that position over a "
-               "signing root recomputed by an independent merkleiser, and the response must have exactly one entry per request. The same monitor (M2) is active in "
+               "signing root recomputed by an independent merkleiser, and the response must have exactly one entry per request; an eighth of the rounds put 2-3 batch requests over disjoint "
+               "keys in flight at once under the scheduler (sometimes behind a refused batch). The same monitor (M2) is active in "
                "every other simulated run of the suite. Exploration: the property quantifies over inputs x degree of parallelism.",
     level_note=TRUST + " 'Well-formed' means 32-byte roots and domains; other lengths are C06/C20 territory.")
 TEXTS["C09"] = dict(
@@ -98,8 +101,10 @@ TEXTS["C16"] = dict(
                "{none, prepared, executed, committed, aborted, expired} is enumerated completely on a 4-instance cluster (3 participants) of real services: a non-peer must get an error and no share, and "
                "the legitimate run must continue from that state to a committed account on every participant (so a refused message created, deleted or altered nothing). A monitor "
                "checks every contribution the transport carries (here and in seeded generations with drawn n, t and id sets): the share equals the originator's vector evaluated at the "
-               "recipient's id and at no other participant's id; a peer replaying a consistent contribution gets only its own share back.",
-    level_note=TRUST2 + " Peer identity is the authenticated name injected into the context as the TLS interceptor does (the interceptor itself is exercised by C19).")
+               "recipient's id and at no other participant's id; a peer replaying a consistent contribution gets only its own share back. A sixteenth worker runs a 50-case credential x message "
+               "table over real gRPC/TLS against an instance whose peers are named like the repository's signer certificates (after a genuine peer has opened the session): only a caller whose "
+               "verified leaf certificate names a peer is honoured - a peer's public certificate riding along in a client's chain is not - and the genuine peer's session survives.",
+    level_note=TRUST2 + " In the simulated cluster peer identity is the authenticated name injected into the context as the TLS interceptor does; the TLS-edge table exercises the interceptor itself (as does C19).")
 TEXTS["C17"] = dict(
     technique="deterministic cluster simulation with fake clock: seeded prepare/execute/commit/abort/clock-advance sequences vs. a reference session lifecycle fed by observed transport facts",
     level_text="Seeded search over event sequences (8-31 events, 1-3 account names, 3 real instances, generation timeout 1 ms .. 10 min on the synctest fake clock, clock advances landing 1 ns "
